@@ -181,8 +181,24 @@ TEST_FILES = {'quick': ['tests/test_errors.py', 'tests/test_directive.py', 'test
               'thorough': ['tests']}
 
 
+def probe_usable(out):
+    """False (and a note in the evidence) when the xdoctest under test lacks a function the probe wraps"""
+    from . import probe
+    try:
+        missing = probe.missing_targets()
+    except Exception as ex:
+        missing = ['probe could not inspect xdoctest: %r' % (ex,)]
+    if missing:
+        out.extra['trace_validation_skipped'] = 'wrap targets missing in the code under test: ' + ', '.join(missing)
+        out.assumptions.append('trace validation skipped (probe wrap targets missing: %s); replay phases unaffected' % ', '.join(missing))
+        return False
+    return True
+
+
 def suite_phase(out, tier):
     """traces of the repository's own doctests and tests (executions the suite already performs) against DocRunTrace.tla"""
+    if not probe_usable(out):
+        return 0
     d = common.scratch_dir('xdv-suite')
     prefix = os.path.join(d, 'tr')
     log1 = record_library_doctests(prefix, LIB_MODULES[tier])
@@ -198,6 +214,8 @@ def suite_phase(out, tier):
 def traced_replay(out, label, parts, maxparts, limit=6000, **kw):
     """DocRun terminal states replayed into the real code WITH the probe on; the recorded runs must be behaviours of DocRunTrace.tla"""
     from . import runlib, probe
+    if not probe_usable(out):
+        return 0
     d = common.scratch_dir('xdv-rtrace')
     prefix = os.path.join(d, 'tr')
     os.environ['XDOCTEST_VERIF_TRACE'] = prefix
